@@ -3,11 +3,36 @@ from . import core, pipe
 from .pipe import S
 
 
+SEEN = []
+
+
 def to_vec(hist, bid):
     v = dict(hist[0])
     v["id"] = bid
     v["steps"] = [1]
+    SEEN.append(v)
     return v
+
+
+def client_phase(tier):
+    """The same vectors through the product's own client functions (internal/abmf, internal/rating) against programmable
+    peers, one after the other in one process per worker, in a seeded order."""
+    def phase(sc, v):
+        import random
+        rnd = random.Random(core.seed())
+        vecs = [dict(x, id=x["id"] + "c") for x in SEEN if x.get("msg") in ("SUR", "SUA", "CCR", "CCA")]
+        rnd.shuffle(vecs)
+        cap = 1600 if tier == "quick" else 20000
+        vecs = vecs[:cap]
+        vfh = sc.build()
+        trace, n = pipe.run_harness(sc, vfh, "diamchf", vecs, chunk=max(50, len(vecs) // 12 + 1), nworkers=12, timeout=1800)
+        res = pipe.judge(sc, "DiamMsgTrace", {}, trace, n)
+        bymap = {x["id"]: x for x in vecs}
+        for x in sorted(res["viol"], key=lambda x: (str(x["trace"]), x["step"])):
+            x = dict(x, sit=dict(x["sit"], via="chf-client"))
+            v.add(x, dict(family="diammsg", property="C17", behaviour=bymap.get(x["trace"]), violation=x, trace=pipe.trace_lines(trace, x["trace"])))
+        return dict(vectors_through_chf_client_functions=n)
+    return phase
 
 
 def check(pid, tier, replay=None):
@@ -20,7 +45,7 @@ def check(pid, tier, replay=None):
         pid, tier, family="diammsg", base_module="DiamMsg", consts=consts, invariants=["WireIsIdentity"], n_beh=1000000,
         to_behaviour=to_vec, harness_mode="diammsg", trace_module="DiamMsgTrace",
         trace_consts={},
-        clauses=None, extra=extra, replay=replay, chunk=400,
+        clauses=None, extra=extra, replay=replay, chunk=400, extra_phase=client_phase(tier),
         explanation="TLC enumerated every vector (message struct x value class x presence mask of each optional grouped AVP "
                     "x string class) of the DiamMsg channel model; EVERY vector was pushed through the real go-diameter "
                     "Marshal -> Serialize -> ReadMessage -> Unmarshal with the dictionaries loaded in product order and the "
